@@ -108,7 +108,7 @@ func main() {
 		r.Fail(vx.Failure{
 			Kind:    kind,
 			Witness: c.Format + " :: " + c.Schema.String(),
-			Size:    c.Schema.Size()*10 + formatRank(c.Format),
+			Size:    c.Schema.Size()*10 + formatRank(c.Format) + extraRank(c.Schema),
 			Parents: genrun.CaseParents(c.Schema, c.Format),
 			What:    fmt.Sprintf("%s schema %s, document %s: %s", c.Format, c.Schema.String(), doc, what),
 			Detail:  map[string]any{"format": c.Format, "schema_index": c.Index, "schema": c.Schema.String(), "doc": doc, "input": c.Unit.Files},
@@ -312,4 +312,11 @@ func main() {
 		"Python vs Go is compared whenever both produce JSON for the document; a difference caused by Python alone is reported once, under the round-trip clause",
 		"Python is driven exactly as a user would: Root.from_json(json.loads(text)); json.dumps(obj, cls=<unit>.cog.encoder.JSONEncoder)",
 	})
+}
+
+func extraRank(s gschema.Schema) int {
+	if beyondG[s.String()] {
+		return 5
+	}
+	return 0
 }
